@@ -37,7 +37,7 @@ Definition valid_char (c : bytes) : Prop :=
 (* ------------------------------------------------------------------------------------------ *)
 Ltac unf := unfold ok3, ok4, cont, inr in *.
 
-(* case analysis on every list / boolean scrutinee that occurs in the goal or in hypothesis *)
+(* case analysis on every list / boolean scrutinee that occurs in the goal or in the context *)
 Ltac brk_on x :=
   let T := type of x in
   let T' := eval hnf in T in
@@ -89,22 +89,39 @@ Proof.
 Qed.
 
 (* conversely a complete character in front of a valid string is valid *)
+(* closing one case of step_char_valid: pick the row of Table 3-7 from the range of the lead byte *)
+Ltac pick_row V :=
+  unf;
+  match goal with
+  | |- valid_utf8 [] => constructor
+  | |- valid_utf8 (?b0 :: ?r) =>
+      match type of V with valid_utf8 r => apply v_1; [lia | exact V] end
+  | |- valid_utf8 (?b0 :: ?b1 :: ?r) =>
+      match type of V with valid_utf8 r => apply v_2; [lia | lia | exact V] end
+  | |- valid_utf8 (?b0 :: ?b1 :: ?b2 :: ?r) =>
+      match type of V with valid_utf8 r =>
+        let C := fresh "C" in
+        assert (C : b0 = 0xE0 \/ 0xE1 <= b0 <= 0xEC \/ b0 = 0xED \/ 0xEE <= b0 <= 0xEF) by lia;
+        destruct C as [C | [C | [C | C]]];
+        [ subst b0; apply v_3a; [lia | lia | exact V]
+        | apply v_3b; [lia | lia | lia | exact V]
+        | subst b0; apply v_3c; [lia | lia | exact V]
+        | apply v_3d; [lia | lia | lia | exact V] ]
+      end
+  | |- valid_utf8 (?b0 :: ?b1 :: ?b2 :: ?b3 :: ?r) =>
+      match type of V with valid_utf8 r =>
+        let C := fresh "C" in
+        assert (C : b0 = 0xF0 \/ 0xF1 <= b0 <= 0xF3 \/ b0 = 0xF4) by lia;
+        destruct C as [C | [C | C]];
+        [ subst b0; apply v_4a; [lia | lia | lia | exact V]
+        | apply v_4b; [lia | lia | lia | lia | exact V]
+        | subst b0; apply v_4c; [lia | lia | lia | exact V] ]
+      end
+  end.
+
 Lemma step_char_valid bs n : step bs = SChar n -> valid_utf8 (skipn n bs) -> valid_utf8 bs.
 Proof.
-  unfold step. intros H V. brk; injection H as <-; cbn [skipn] in V.
-  - apply v_1; [lia | exact V].
-  - apply v_2; [lia | unf; lia | exact V].
-  - unf. assert (C : n0 = 0xE0 \/ 0xE1 <= n0 <= 0xEC \/ n0 = 0xED \/ 0xEE <= n0 <= 0xEF) by lia.
-    destruct C as [C | [C | [C | C]]].
-    + subst n0. apply v_3a; [lia | lia | exact V].
-    + apply v_3b; [lia | lia | lia | exact V].
-    + subst n0. apply v_3c; [lia | lia | exact V].
-    + apply v_3d; [lia | lia | lia | exact V].
-  - unf. assert (C : n0 = 0xF0 \/ 0xF1 <= n0 <= 0xF3 \/ n0 = 0xF4) by lia.
-    destruct C as [C | [C | C]].
-    + subst n0. apply v_4a; [lia | lia | lia | exact V].
-    + apply v_4b; [lia | lia | lia | lia | exact V].
-    + subst n0. apply v_4c; [lia | lia | lia | exact V].
+  unfold step. intros H V. brk; injection H as <-; cbn [skipn] in V; pick_row V.
 Qed.
 
 (* prefix determinacy: a decided step is not changed by appending bytes *)
@@ -130,23 +147,33 @@ Proof. unfold step. intros H. brk; reflexivity. Qed.
 Lemma step_char_firstn bs n : step bs = SChar n -> step (firstn n bs) = SChar n.
 Proof. unfold step. intros H. brk; injection H as <-; cbn [firstn] in *; brk; try reflexivity; try congruence. Qed.
 
-(* an incomplete sequence can be completed to one character *)
+(* an incomplete sequence can be completed to one character: an explicit completion *)
+Definition completion (bs : bytes) : bytes :=
+  match bs with
+  | [b0] =>
+      if b0 <? 0xE0 then [0x80]
+      else if b0 =? 0xE0 then [0xA0; 0x80]
+      else if b0 <? 0xF0 then [0x80; 0x80]
+      else if b0 =? 0xF0 then [0x90; 0x80; 0x80]
+      else [0x80; 0x80; 0x80]
+  | [b0; _] => if b0 <? 0xF0 then [0x80] else [0x80; 0x80]
+  | _ => [0x80]
+  end.
+
+Lemma completion_nonempty bs : completion bs <> [].
+Proof. unfold completion. brk; discriminate. Qed.
+
+Lemma step_completion bs : step bs = SIncomplete ->
+  step (bs ++ completion bs) = SChar (length (bs ++ completion bs)).
+Proof.
+  unfold step at 1. intros H. brk; unfold completion; brk; cbn [app length]; unfold step; brk;
+    try reflexivity; exfalso; unf; lia.
+Qed.
+
 Lemma step_incomplete_completable bs : step bs = SIncomplete ->
   exists t, t <> [] /\ step (bs ++ t) = SChar (length (bs ++ t)).
 Proof.
-  unfold step. intros H. brk.
-  - exists [0x80]. split; [discriminate|]. cbn [app length]. brk; try reflexivity; exfalso; unf; lia.
-  - unf. assert (C : n = 0xE0 \/ n <> 0xE0) by lia. destruct C as [C | C].
-    + exists [0xA0; 0x80]. split; [discriminate|]. cbn [app length]. brk; try reflexivity; exfalso; unf; lia.
-    + assert (C' : n = 0xED \/ n <> 0xED) by lia. destruct C' as [C' | C'].
-      * exists [0x80; 0x80]. split; [discriminate|]. cbn [app length]. brk; try reflexivity; exfalso; unf; lia.
-      * exists [0x80; 0x80]. split; [discriminate|]. cbn [app length]. brk; try reflexivity; exfalso; unf; lia.
-  - exists [0x80]. split; [discriminate|]. cbn [app length]. brk; try reflexivity; exfalso; unf; lia.
-  - assert (C : n = 0xF0 \/ n <> 0xF0) by lia. destruct C as [C | C].
-    + exists [0x90; 0x80; 0x80]. split; [discriminate|]. cbn [app length]. brk; try reflexivity; exfalso; unf; lia.
-    + exists [0x80; 0x80; 0x80]. split; [discriminate|]. cbn [app length]. brk; try reflexivity; exfalso; unf; lia.
-  - exists [0x80; 0x80]. split; [discriminate|]. cbn [app length]. brk; try reflexivity; exfalso; unf; lia.
-  - exists [0x80]. split; [discriminate|]. cbn [app length]. brk; try reflexivity; exfalso; unf; lia.
+  intros H. exists (completion bs). split; [apply completion_nonempty | apply step_completion; exact H].
 Qed.
 
 (* the two checked_sub().unwrap() sites: after an incomplete prefix of l0 bytes, a later error_len is >= l0 *)
@@ -1448,4 +1475,351 @@ Proof.
     + intros ->. reflexivity.
     + intros -> ->. reflexivity.
     + intros -> ->. reflexivity.
+Qed.
+
+(* ------------------------------------------------------------------------------------------ *)
+(* the utf-8 crate's unwrap sites are unreachable from the protocol layer                       *)
+(* ------------------------------------------------------------------------------------------ *)
+Lemma frame_into_close_no_panic payload s : frame_into_close payload <> RPanic s.
+Proof.
+  destruct payload as [|a [|b r]]; cbn [frame_into_close]; try discriminate.
+  destruct (is_utf8 r); discriminate.
+Qed.
+
+Lemma incmsg_complete_no_panic m s : incmsg_complete m <> RPanic s.
+Proof.
+  destruct m as [c|v]; cbn [incmsg_complete]; [|discriminate].
+  destruct (collector_into_string c); discriminate.
+Qed.
+
+Lemma check_max_size_no_panic size lim s : check_max_size size lim <> RPanic s.
+Proof.
+  unfold check_max_size. destruct lim as [m|]; [|discriminate]. destruct (m <? size); discriminate.
+Qed.
+
+Lemma do_close_no_utf8_panic x cl : fst (do_close x cl) <> RPanic site_utf8_checked_sub.
+Proof. unfold do_close. destruct (x_state x); cbn [fst]; discriminate. Qed.
+
+Ltac np NP :=
+  let H := fresh "H" in
+  intros H; apply NP; cbn [fst] in H; injection H as ->; reflexivity.
+
+Lemma on_frame_no_utf8_panic x f : ctx_wf x -> fst (on_frame x f) <> RPanic site_utf8_checked_sub.
+Proof.
+  intros W. unfold on_frame.
+  destruct (negb (can_read (x_state x))); [discriminate|].
+  destruct (h_rsv1 (f_hdr f) || h_rsv2 (f_hdr f) || h_rsv3 (f_hdr f)); [discriminate|].
+  destruct (role_eqb (x_role x) Client && _); [discriminate|].
+  destruct (h_opcode (f_hdr f)) as [d|ctl].
+  - destruct d as [| | |i].
+    + unfold ctx_wf in W. destruct (x_incomplete x) as [msg|]; [|discriminate].
+      pose proof (incmsg_extend_wf msg (f_payload f) (cfg_max_message_size (x_cfg x)) W) as [_ NP].
+      destruct (incmsg_extend msg (f_payload f) (cfg_max_message_size (x_cfg x))) as [r msg'].
+      cbn [fst] in NP.
+      destruct r as [u|e|s|]; try discriminate; [|np NP].
+      destruct (h_fin (f_hdr f)); [|discriminate].
+      pose proof (incmsg_complete_no_panic msg') as NC.
+      destruct (incmsg_complete msg') as [m|e|s|]; try discriminate. exfalso. exact (NC s eq_refl).
+    + destruct (x_incomplete x); [discriminate|].
+      destruct (h_fin (f_hdr f)).
+      * pose proof (check_max_size_no_panic (blen (f_payload f)) (cfg_max_message_size (x_cfg x))) as NC.
+        destruct (check_max_size _ _) as [u|e|s|]; try discriminate.
+        -- destruct (is_utf8 (f_payload f)); discriminate.
+        -- exfalso. exact (NC s eq_refl).
+      * pose proof (incmsg_extend_wf (ITxt collector_new) (f_payload f) (cfg_max_message_size (x_cfg x)) coll_wf_new) as [_ NP].
+        destruct (incmsg_extend (ITxt collector_new) (f_payload f) (cfg_max_message_size (x_cfg x))) as [r inc1].
+        cbn [fst] in NP. destruct r as [u|e|s|]; try discriminate. np NP.
+    + destruct (x_incomplete x); [discriminate|].
+      destruct (h_fin (f_hdr f)).
+      * pose proof (check_max_size_no_panic (blen (f_payload f)) (cfg_max_message_size (x_cfg x))) as NC.
+        destruct (check_max_size _ _) as [u|e|s|]; try discriminate. exfalso. exact (NC s eq_refl).
+      * pose proof (incmsg_extend_wf (IBin []) (f_payload f) (cfg_max_message_size (x_cfg x)) I) as [_ NP].
+        destruct (incmsg_extend (IBin []) (f_payload f) (cfg_max_message_size (x_cfg x))) as [r inc1].
+        cbn [fst] in NP. destruct r as [u|e|s|]; try discriminate. np NP.
+    + destruct (x_incomplete x); discriminate.
+  - destruct (negb (h_fin (f_hdr f))); [discriminate|].
+    destruct (125 <? blen (f_payload f)); [discriminate|].
+    destruct ctl as [| | |i]; try discriminate.
+    pose proof (frame_into_close_no_panic (f_payload f)) as NC.
+    destruct (frame_into_close (f_payload f)) as [cl|e|s|]; try discriminate.
+    + pose proof (do_close_no_utf8_panic x cl) as ND.
+      destruct (do_close x cl) as [r x2]. cbn [fst] in ND.
+      destruct r as [[c|]|e|s|]; try discriminate. np ND.
+    + exfalso. exact (NC s eq_refl).
+Qed.
+
+(* lifting to read_message_frame / read / any history *)
+Definition no_panic {A} (r : res A) : Prop := match r with RPanic _ => False | _ => True end.
+Definition no_utf8_panic {A} (r : res A) : Prop := r <> RPanic site_utf8_checked_sub.
+
+Lemma no_panic_no_utf8 {A} (r : res A) : no_panic r -> no_utf8_panic r.
+Proof. destruct r; cbn [no_panic]; intros H; try discriminate. destruct H. Qed.
+
+Lemma write_out_loop_no_panic wrs : forall out log, no_panic (fst (fst (fst (write_out_loop wrs out log)))).
+Proof.
+  induction wrs as [|wr wrs IH]; intros out log; destruct out as [|o out]; cbn [write_out_loop fst]; try exact I.
+  destruct wr as [n|k]; [|exact I].
+  destruct (N.min n (blen (o :: out)) =? 0); [exact I | apply IH].
+Qed.
+
+Lemma write_out_buffer_no_panic c w : no_panic (fst (fst (write_out_buffer c w))).
+Proof.
+  unfold write_out_buffer. pose proof (write_out_loop_no_panic (w_wrs w) (c_out c) (w_log w)) as P.
+  destruct (write_out_loop (w_wrs w) (c_out c) (w_log w)) as [[[r out'] wrs'] log']. exact P.
+Qed.
+
+Lemma codec_buffer_frame_no_panic c f w : no_panic (fst (fst (codec_buffer_frame c f w))).
+Proof.
+  unfold codec_buffer_frame. destruct (c_max_out c <? _); [exact I|].
+  destruct (c_write_len c <? _); [apply write_out_buffer_no_panic | exact I].
+Qed.
+
+Lemma check_connection_reset_no_panic {A} (r : res A) s : no_panic r -> no_panic (fst (check_connection_reset r s)).
+Proof.
+  intros P. unfold check_connection_reset. destruct r as [a|e|p|]; try exact P.
+  destruct e as [| |k| | | |]; try exact I. destruct k; try exact I. destruct (closing_done s); exact I.
+Qed.
+
+Lemma buffer_frame_no_panic x f w : no_panic (fst (fst (buffer_frame x f w))).
+Proof.
+  unfold buffer_frame.
+  destruct (match x_role x with Server => (f, w) | Client => _ end) as [f1 w1].
+  pose proof (codec_buffer_frame_no_panic (x_codec x) f1 w1) as P.
+  destruct (codec_buffer_frame (x_codec x) f1 w1) as [[r1 c'] w2]. cbn [fst] in P.
+  pose proof (check_connection_reset_no_panic r1 (x_state x) P) as Q.
+  destruct (check_connection_reset r1 (x_state x)) as [r' s']. exact Q.
+Qed.
+
+Lemma write__no_panic x data w : no_panic (fst (fst (write_ x data w))).
+Proof.
+  unfold write_.
+  assert (P0 : no_panic (fst (fst (match data with Some f => buffer_frame x f w | None => (ROk tt, x, w) end)))).
+  { destruct data as [f|]; [apply buffer_frame_no_panic | exact I]. }
+  destruct (match data with Some f => buffer_frame x f w | None => (ROk tt, x, w) end) as [[r0 x0] w0].
+  cbn [fst] in P0. destruct r0 as [u|e|s|]; try exact I; [|destruct P0].
+  destruct (x_additional x0) as [msg|].
+  - cbv zeta. pose proof (buffer_frame_no_panic (set_additional_raw x0 None) msg w0) as Pb.
+    destruct (buffer_frame (set_additional_raw x0 None) msg w0) as [[rb xb] wb]. cbn [fst] in Pb.
+    destruct rb as [u'|e|s|]; [ | | destruct Pb | exact I].
+    + destruct (role_eqb (x_role xb) Server && closing_done (x_state xb) && _); [|exact I].
+      pose proof (write_out_buffer_no_panic (x_codec xb) wb) as Pw.
+      destruct (write_out_buffer (x_codec xb) wb) as [[rw c'] w2]. cbn [fst] in Pw.
+      destruct rw; try exact I. destruct Pw.
+    + destruct e; try exact I.
+      destruct (role_eqb _ Server && closing_done _ && _); [|exact I].
+      pose proof (write_out_buffer_no_panic (x_codec (set_additional xb f)) wb) as Pw.
+      destruct (write_out_buffer (x_codec (set_additional xb f)) wb) as [[rw c'] w2]. cbn [fst] in Pw.
+      destruct rw; try exact I. destruct Pw.
+  - destruct (role_eqb (x_role x0) Server && closing_done (x_state x0) && _); [|exact I].
+    pose proof (write_out_buffer_no_panic (x_codec x0) w0) as Pw.
+    destruct (write_out_buffer (x_codec x0) w0) as [[rw c'] w2]. cbn [fst] in Pw.
+    destruct rw; try exact I. destruct Pw.
+Qed.
+
+Lemma w_flush_no_panic w : no_panic (fst (w_flush w)).
+Proof. unfold w_flush. destruct (w_fls w) as [|[|k] r]; exact I. Qed.
+
+Lemma flush_no_panic x w : no_panic (fst (fst (flush x w))).
+Proof.
+  unfold flush. pose proof (write__no_panic x None w) as P0.
+  destruct (write_ x None w) as [[r0 x0] w0]. cbn [fst] in P0.
+  destruct r0 as [u|e|s|]; try exact I; [|destruct P0].
+  pose proof (write_out_buffer_no_panic (x_codec x0) w0) as P1.
+  destruct (write_out_buffer (x_codec x0) w0) as [[r1 c1] w1]. cbn [fst] in P1.
+  destruct r1 as [u1|e|s|]; try exact I; [|destruct P1].
+  pose proof (w_flush_no_panic w1) as P2.
+  destruct (w_flush w1) as [r2 w2]. cbn [fst] in P2.
+  destruct r2; try exact I. destruct P2.
+Qed.
+
+Lemma close_no_panic x code w : no_panic (fst (fst (close x code w))).
+Proof. unfold close. destruct (x_state x); apply flush_no_panic. Qed.
+
+Lemma write_no_panic x m w : no_panic (fst (fst (write x m w))).
+Proof.
+  unfold write.
+  destruct (is_terminated (x_state x)); [exact I|].
+  destruct (negb (is_active (x_state x))); [exact I|].
+  assert (D : forall f, no_panic (fst (fst
+    (let '(r, x1, w1) := write_ x (Some f) w in
+     match r with
+     | ROk true => flush x1 w1
+     | ROk false => (ROk tt, x1, w1)
+     | RErr e => (RErr e, x1, w1)
+     | RPanic s => (RPanic s, x1, w1)
+     | ROutOfFuel => (ROutOfFuel, x1, w1)
+     end)))).
+  { intros f. pose proof (write__no_panic x (Some f) w) as P.
+    destruct (write_ x (Some f) w) as [[r1 x1] w1]. cbn [fst] in P.
+    destruct r1 as [[|]|e|s|]; try exact I; [apply flush_no_panic | destruct P]. }
+  destruct m as [d|d|d|d|code|f]; try apply D.
+  - pose proof (write__no_panic (set_additional x (frame_pong d)) None w) as P.
+    destruct (write_ (set_additional x (frame_pong d)) None w) as [[r1 x1] w1]. cbn [fst] in P.
+    destruct r1; try exact I. destruct P.
+  - apply close_no_panic.
+Qed.
+
+(* read side: read_frame's panics are other sites *)
+Lemma try_take_no_utf8_panic max c s : try_take max c = TkPanic s -> s <> site_utf8_checked_sub.
+Proof.
+  unfold try_take. destruct (c_hdr c) as [[h len]|] eqn:Eh; cbv beta iota zeta.
+  - rewrite Eh. destruct (max <? len); [discriminate|]. destruct (len <=? blen (c_in c)); discriminate.
+  - destruct (header_parse (c_in c)) as [h len k| |i|]; cbv beta iota zeta.
+    + cbn [c_hdr set_hdr]. destruct (max <? len); [discriminate|].
+      destruct (len <=? blen _); discriminate.
+    + rewrite Eh. discriminate.
+    + discriminate.
+    + intros H. injection H as <-. discriminate.
+Qed.
+
+Lemma read_frame_loop_no_utf8_panic max rds : forall c log,
+  no_utf8_panic (fst (fst (fst (read_frame_loop max rds c log)))).
+Proof.
+  induction rds as [|rd rds IH]; intros c log; cbn [read_frame_loop].
+  - destruct (try_take max c) as [h len p c'|n c'|e c'|s] eqn:T; cbn [fst]; try discriminate.
+    intros H. injection H as H. exact (try_take_no_utf8_panic _ _ _ T H).
+  - destruct (try_take max c) as [h len p c'|n c'|e c'|s] eqn:T; cbn [fst]; try discriminate.
+    + destruct rd as [[|b bs]| |k]; cbn [fst]; try discriminate. apply IH.
+    + intros H. injection H as H. exact (try_take_no_utf8_panic _ _ _ T H).
+Qed.
+
+Lemma read_frame_no_utf8_panic ms um au c w : no_utf8_panic (fst (fst (read_frame ms um au c w))).
+Proof.
+  unfold read_frame. pose proof (read_frame_loop_no_utf8_panic (limit_of ms) (w_rds w) c (w_log w)) as P.
+  destruct (read_frame_loop (limit_of ms) (w_rds w) c (w_log w)) as [[[r c'] rds'] log']. cbn [fst] in P.
+  destruct r as [[[[h len] payload]|]|e|s|]; cbn [fst]; try discriminate.
+  - destruct (negb (blen payload =? len)); [discriminate|].
+    destruct um; [|discriminate]. destruct (h_mask h); [discriminate|]. destruct au; discriminate.
+  - intros H. apply P. injection H as ->. reflexivity.
+Qed.
+
+Lemma rmf_no_utf8_panic x w : ctx_wf x -> no_utf8_panic (fst (fst (read_message_frame x w))).
+Proof.
+  intros W. rewrite rmf_unfold.
+  pose proof (read_frame_no_utf8_panic (cfg_max_frame_size (x_cfg x)) (role_eqb (x_role x) Server)
+                (cfg_accept_unmasked (x_cfg x)) (x_codec x) w) as P.
+  destruct (read_frame _ _ _ _ _) as [[r0 c1] w1]. cbn [fst] in P.
+  assert (Q : no_utf8_panic (fst (check_connection_reset r0 (x_state x)))).
+  { unfold check_connection_reset. destruct r0 as [a|e|p|]; try exact P.
+    destruct e as [| |k| | | |]; try discriminate. destruct k; try discriminate.
+    destruct (closing_done (x_state x)); discriminate. }
+  destruct (check_connection_reset r0 (x_state x)) as [r0' s1]. cbn [fst] in Q.
+  destruct r0' as [[f|]|e|s|]; cbv zeta; cbn [fst]; try discriminate.
+  - pose proof (on_frame_no_utf8_panic (set_state (set_codec x c1) s1) f W) as R.
+    destruct (on_frame (set_state (set_codec x c1) s1) f) as [r2 x2]. exact R.
+  - destruct (x_state (set_state (set_codec x c1) s1)); discriminate.
+  - intros H. apply Q. injection H as ->. reflexivity.
+Qed.
+
+(* the part of one iteration of read's loop that precedes read_message_frame *)
+Definition read_pre (x : ctx) (w : world) : res unit * ctx * world :=
+  if (match x_additional x with Some _ => true | None => false end) || x_unflushed x then
+    let '(r, x', w') := flush x w in
+    match r with
+    | ROk _ => (ROk tt, x', w')
+    | RErr (EIo WouldBlock) => (ROk tt, set_unflushed x' true, w')
+    | _ => (r, x', w')
+    end
+  else if role_eqb (x_role x) Server && negb (can_read (x_state x)) then
+    let '(rw, c', w') := write_out_buffer (x_codec x) w in
+    match rw with
+    | ROk _ => (RErr EConnectionClosed, set_state (set_codec x c') Terminated, w')
+    | _ => (rw, set_codec x c', w')
+    end
+  else (ROk tt, x, w).
+
+Lemma read_loop_S fuel x w :
+  read_loop (S fuel) x w =
+  let '(r0, x0, w0) := read_pre x w in
+  match r0 with
+  | ROk _ =>
+      let '(r1, x1, w1) := read_message_frame x0 w0 in
+      match r1 with
+      | ROk (Some m) => (ROk m, x1, w1)
+      | ROk None => read_loop fuel x1 w1
+      | RErr e => (RErr e, x1, w1)
+      | RPanic s => (RPanic s, x1, w1)
+      | ROutOfFuel => (ROutOfFuel, x1, w1)
+      end
+  | RErr e => (RErr e, x0, w0)
+  | RPanic s => (RPanic s, x0, w0)
+  | ROutOfFuel => (ROutOfFuel, x0, w0)
+  end.
+Proof. reflexivity. Qed.
+
+Lemma read_pre_inc x w : x_incomplete (snd (fst (read_pre x w))) = x_incomplete x.
+Proof.
+  unfold read_pre.
+  destruct ((match x_additional x with Some _ => true | None => false end) || x_unflushed x).
+  - destruct (flush x w) as [[rf xf] wf] eqn:Ef. apply flush_inc in Ef.
+    destruct rf as [u|e|s|]; try exact Ef.
+    destruct e as [| |k| | | |]; try exact Ef. destruct k; exact Ef.
+  - destruct (role_eqb (x_role x) Server && negb (can_read (x_state x))); [|reflexivity].
+    destruct (write_out_buffer (x_codec x) w) as [[rw c'] ww]. destruct rw; reflexivity.
+Qed.
+
+Lemma read_pre_no_panic x w : no_panic (fst (fst (read_pre x w))).
+Proof.
+  unfold read_pre.
+  destruct ((match x_additional x with Some _ => true | None => false end) || x_unflushed x).
+  - pose proof (flush_no_panic x w) as P.
+    destruct (flush x w) as [[rf xf] wf]. cbn [fst] in P.
+    destruct rf as [u|e|s|]; try exact I; [|destruct P].
+    destruct e as [| |k| | | |]; try exact I. destruct k; exact I.
+  - destruct (role_eqb (x_role x) Server && negb (can_read (x_state x))); [|exact I].
+    pose proof (write_out_buffer_no_panic (x_codec x) w) as P.
+    destruct (write_out_buffer (x_codec x) w) as [[rw c'] ww]. cbn [fst] in P.
+    destruct rw; try exact I. destruct P.
+Qed.
+
+Lemma read_loop_no_utf8_panic fuel : forall x w, ctx_wf x -> no_utf8_panic (fst (fst (read_loop fuel x w))).
+Proof.
+  induction fuel as [|fuel IH]; intros x w W; [discriminate|].
+  rewrite read_loop_S.
+  pose proof (read_pre_inc x w) as Pi. pose proof (read_pre_no_panic x w) as Pn.
+  destruct (read_pre x w) as [[r0 x0] w0]. cbn [fst snd] in Pi, Pn.
+  assert (W0 : ctx_wf x0) by (unfold ctx_wf; rewrite Pi; exact W).
+  destruct r0 as [u|e|s|]; try discriminate; [|destruct Pn].
+  pose proof (rmf_no_utf8_panic x0 w0 W0) as R.
+  destruct (read_message_frame x0 w0) as [[r1 x1] w1] eqn:E1. cbn [fst] in R.
+  destruct (rmf_exposed _ _ _ _ _ W0 E1) as [W1 _].
+  destruct r1 as [[m|]|e|s|]; try discriminate.
+  - apply IH. exact W1.
+  - intros H. apply R. injection H as ->. reflexivity.
+Qed.
+
+Lemma read_no_utf8_panic x w : ctx_wf x -> no_utf8_panic (fst (fst (read x w))).
+Proof.
+  intros W. unfold read. destruct (is_terminated (x_state x)); [discriminate|].
+  apply read_loop_no_utf8_panic. exact W.
+Qed.
+
+Definition op_no_utf8_panic (o : op_result) : Prop :=
+  match o with ResMsg r => no_utf8_panic r | ResUnit r => no_utf8_panic r | ResBool _ => True end.
+
+Lemma run_op_no_utf8_panic x o w : ctx_wf x -> op_no_utf8_panic (fst (fst (run_op x o w))).
+Proof.
+  intros W. unfold run_op. destruct o as [|m| |c| | |wbs mx].
+  - pose proof (read_no_utf8_panic x w W) as P. destruct (read x w) as [[r x1] w1]. exact P.
+  - pose proof (write_no_panic x m w) as P. destruct (write x m w) as [[r x1] w1].
+    apply no_panic_no_utf8. exact P.
+  - pose proof (flush_no_panic x w) as P. destruct (flush x w) as [[r x1] w1].
+    apply no_panic_no_utf8. exact P.
+  - pose proof (close_no_panic x c w) as P. destruct (close x c w) as [[r x1] w1].
+    apply no_panic_no_utf8. exact P.
+  - exact I.
+  - exact I.
+  - destruct (config_valid _); cbn [fst op_no_utf8_panic]; discriminate.
+Qed.
+
+Theorem run_ops_no_utf8_panic ops : forall x w, ctx_wf x ->
+  Forall (fun p => op_no_utf8_panic (fst p)) (fst (fst (run_ops x ops w))).
+Proof.
+  induction ops as [|o ops IH]; intros x w W; cbn [run_ops]; [constructor|].
+  pose proof (run_op_no_utf8_panic x o w W) as P.
+  destruct (run_op x o w) as [[res1 x1] w1] eqn:E1. cbn [fst] in P.
+  destruct (run_op_exposed _ _ _ _ _ _ W E1) as [W1 _].
+  specialize (IH x1 w1 W1).
+  destruct (run_ops x1 ops w1) as [[rs2 x2] w2]. cbn [fst] in *.
+  constructor; [exact P | exact IH].
 Qed.
